@@ -147,6 +147,25 @@ def c10_replay(run, path):
     return 0
 
 
+def names_family(run, tier, fam, base_cfg):
+    cfg = run.cfg(base_cfg, {"Family": '"%s"' % fam, "MaxNodes": Q(tier, 5, 6)}, "gen.%s.cfg" % fam)
+    rep = run.tlc_gen_replay("MC_Names", cfg, fam, timeout=Q(tier, 400, 3000))
+    run.absorb(rep, VALUE_ASPECTS)
+
+
+def c11(run, tier):
+    names_family(run, tier, "C11", "MC_Names.cfg")
+    for i in range(Q(tier, 1, 4)):
+        run.trace_validate(["-fam", "bindings", "-n", str(Q(tier, 2500, 20000)), "-sub", str(i)], "bindings%d" % i)
+
+
+def c12(run, tier):
+    names_family(run, tier, "C12n", "MC_Names.cfg")
+    names_family(run, tier, "C12l", "MC_Lang.cfg")
+    for i in range(Q(tier, 1, 4)):
+        run.trace_validate(["-fam", "values", "-n", str(Q(tier, 2500, 20000)), "-sub", str(100 + i)], "values%d" % i)
+
+
 def raise_spec(run, what, out):
     from check import Infra
     raise Infra("%s -- the specification itself is inconsistent (machinery problem, not a verdict):\n%s" % (what, run.tail(out)))
@@ -187,6 +206,14 @@ PROPS = {
                     "RootZero, ListedOnce (own namespace nodes), ParentLinks, PosUnique, PosOrder; plus seeded random streams of up to 45 nodes and flat streams of 10^5 (thorough 10^6) events "
                     "with call-stack depth sampled inside Pull(); every trace line is a distinct run", "exhaustive": {"quick": True, "thorough": True},
             "assumptions": BASE_ASSUME + ["stack usage is observed as call depth (runtime.Callers) inside the scripted parser in a child process with a 48 MB stack cap; the relative order of an element's namespace nodes is not constrained"]},
+    "C11": {"run": c11, "rule": "TLC enumerates every Store-machine document (elements a in no namespace / U1, b in U2, attributes x in none / U1, a document-side prefix d, PI, text) within the node bound x 7 prefix maps "
+            "over {p,q} -> {U1,U2} (unbound, aliases, rebinding) x 33 expressions (prefixed / unprefixed / p:* / *:x name tests on elements and attributes, variables of the four types in three namespaces, "
+            "user functions of five kinds incl. one shadowing count(), unbound prefix / variable / function); laws checked on the specification: invariance under swapping the query's prefixes, selection by URI only",
+            "exhaustive": {"quick": True, "thorough": True}, "assumptions": BASE_ASSUME + ["unbound references are generated only in positions every evaluation strategy evaluates"]},
+    "C12": {"run": c12, "rule": "TLC enumerates every document within the bound and every node as context: local-name/namespace-uri/name with 0 arguments and with 11 axis arguments (first node in document order, "
+            "also after reverse axes), PI / namespace / attribute / empty arguments, count() of non-node-sets, P/name(); lang(L) for 9 tags (case variants, prefixes, empty, trailing '-') from every "
+            "context kind over documents with xml:lang in {en, EN-us, fr, ''} at every placement; laws: name = local-name iff no namespace, {uri}local otherwise, lang case-insensitive and inherited from the parent",
+            "exhaustive": {"quick": True, "thorough": True}, "assumptions": BASE_ASSUME},
     "C01": {
         "run": c01,
         "rule": "TLC enumerates every document the Store machine can build within the node bound (all kinds, names a/b x {no namespace,U1}), "
